@@ -109,6 +109,7 @@ fn main() {
                 "c03_inl" => ("C03", c01::part_c03_inlined(tier)),
                 "c19_regs" => ("C19", c19r::part_registers(tier, "C19")),
                 "c04_c" => ("C04", c04::part_c_binary(tier)),
+                "c11_stepexit" => ("C11", c01::part_c11_step_into_exit(tier)),
                 "c16_blocked" => ("C16", mt::part_c16_blocked_thread(tier)),
                 "c05_sig" => ("C05", c05c::part_signal_frames(tier)),
                 "c05_c" => ("C05", c05c::part_c_frames(tier)),
@@ -240,6 +241,7 @@ fn run_check(id: &str, tier: Tier) -> i32 {
         "C11" => {
             let mut r = Report::new("C11", tier, "model_checking");
             r.parts.push(c01::part_c11(tier));
+            r.parts.push(c01::part_c11_step_into_exit(tier));
             r.parts.push(mt::part_c11_attach(tier));
             r.parts.push(simk::part_c11_sim(tier));
             finish(r)
